@@ -8,6 +8,6 @@ T=$(mktemp -d /tmp/seedrun_XXXX); mkdir -p $T/r; cp -r /repo/note_seq $T/r/; (cd
 OUT=$(cd $ROOT && PYTHONPATH=$T/r timeout 3000 ./check $PID $TIER 2>&1 | grep -E "VIOLATION|KNOWN|MACHINERY" | head -3); RC=$?
 rm -rf $T
 # restore generated files / build state for the clean tree
-(cd $ROOT && ./check $PID quick >/dev/null 2>&1); CLEAN=$?
+if [ -z "${SEED_NO_RESTORE:-}" ]; then (cd $ROOT && ./check $PID quick >/dev/null 2>&1); CLEAN=$?; else CLEAN="skipped (SEED_NO_RESTORE: scratch working copy, the next run regenerates everything)"; fi
 if echo "$OUT" | grep -q "VIOLATION"; then echo "DETECTED $D ($TIER): $OUT"; else echo "MISSED $D ($TIER): $OUT"; fi
 echo "clean-tree rc after: $CLEAN"
